@@ -7,6 +7,7 @@
 import Rox.Props.C08
 import Rox.Lemmas.Size
 import Rox.Lemmas.RoundTrip
+import Rox.Lemmas.RoundTrip2
 import Rox.Lemmas.Emits
 import Rox.Props.C01
 
@@ -117,6 +118,57 @@ example :
     Rox.Spec.Canon.ok (.elem [97] [([98], [99])] [.comment [107], .text [116], .elem [100] [] []]) = true ∧
     (Rox.Spec.Canon.expect 0 1 (.elem [97] [([98], [99])] [.comment [107], .text [116], .elem [100] [] []])).length = 4 := by
   decide
+
+/-- The table facts for white space inside tags and for the apostrophe hold of the tables of the
+build. -/
+theorem generated_tables_canon2 : Rox.Spec.Canon.TablesCanon2 Generated.tables := by
+  refine ⟨?_, ?_, ?_, ?_⟩
+  · apply all_bytes; decide +kernel
+  · apply all_bytes; decide +kernel
+  · decide
+  · decide
+
+/-- **Every legal rendering gives the document's tree** (`XS`: an abstract document together with a
+choice of concrete syntax wherever XML allows one inside tags — the white space before each
+attribute, around each `=`, before `>` / `/>` and before the `>` of an end tag: any non-empty resp.
+possibly empty run of space, TAB, LF, CR; `"` or `'` around each attribute value; `<e/>` or
+`<e></e>` for a childless element): parsing `renderS s` succeeds and the tree is `erase s`. -/
+theorem every_rendering_gives_the_tree (n : Bytes) (as : List (Bytes × Bytes × Rox.Spec.Canon.AttrStyle))
+    (endWs : Bytes) (sc : Bool) (ks : List Rox.Spec.Canon.XS) (closeWs : Bytes)
+    (hx : Rox.Spec.Canon.ok (Rox.Spec.Canon.erase (.elem n as endWs sc ks closeWs)) = true)
+    (hs : Rox.Spec.Canon.styleOk (.elem n as endWs sc ks closeWs) = true) (opt : Opt)
+    (hlim : Rox.Spec.Canon.count (Rox.Spec.Canon.erase (.elem n as endWs sc ks closeWs)) + 1 ≤ opt.nodesLimit)
+    (hl32 : opt.nodesLimit ≤ 4294967295)
+    (hattrs : attrCount (Rox.Spec.Canon.erase (.elem n as endWs sc ks closeWs)) < 4294967295) :
+    ∃ d, parse Generated.tables (Rox.Spec.Canon.renderS (.elem n as endWs sc ks closeWs)) opt = .ok d ∧
+      d.nodes.toList.map (Rox.Spec.Canon.view d) =
+        some (none, Rox.Spec.Canon.XKind.root) ::
+          (Rox.Spec.Canon.expect 0 1 (Rox.Spec.Canon.erase (.elem n as endWs sc ks closeWs))).map some :=
+  parse_renderS Generated.tables C01.generated_tables_ok generated_tables_canon generated_tables_canon2
+    n as endWs sc ks closeWs hx hs opt hlim hl32 hattrs
+
+/-- **Insignificant syntactic variation never changes the tree**: two legal renderings of the same
+abstract document (same `erase`), parsed under any two option values that admit the document,
+give trees that read back identically node by node. -/
+theorem rendering_insensitive (s1 s2 : Rox.Spec.Canon.XS)
+    (n1 : Bytes) (as1 : List (Bytes × Bytes × Rox.Spec.Canon.AttrStyle)) (e1 : Bytes) (sc1 : Bool)
+    (ks1 : List Rox.Spec.Canon.XS) (c1 : Bytes) (h1 : s1 = .elem n1 as1 e1 sc1 ks1 c1)
+    (n2 : Bytes) (as2 : List (Bytes × Bytes × Rox.Spec.Canon.AttrStyle)) (e2 : Bytes) (sc2 : Bool)
+    (ks2 : List Rox.Spec.Canon.XS) (c2 : Bytes) (h2 : s2 = .elem n2 as2 e2 sc2 ks2 c2)
+    (hsame : Rox.Spec.Canon.erase s1 = Rox.Spec.Canon.erase s2)
+    (hx : Rox.Spec.Canon.ok (Rox.Spec.Canon.erase s1) = true)
+    (hs1 : Rox.Spec.Canon.styleOk s1 = true) (hs2 : Rox.Spec.Canon.styleOk s2 = true) (o1 o2 : Opt)
+    (hl1 : Rox.Spec.Canon.count (Rox.Spec.Canon.erase s1) + 1 ≤ o1.nodesLimit) (hl1' : o1.nodesLimit ≤ 4294967295)
+    (hl2 : Rox.Spec.Canon.count (Rox.Spec.Canon.erase s1) + 1 ≤ o2.nodesLimit) (hl2' : o2.nodesLimit ≤ 4294967295)
+    (hattrs : attrCount (Rox.Spec.Canon.erase s1) < 4294967295) :
+    ∃ d1 d2, parse Generated.tables (Rox.Spec.Canon.renderS s1) o1 = .ok d1 ∧
+      parse Generated.tables (Rox.Spec.Canon.renderS s2) o2 = .ok d2 ∧
+      d1.nodes.toList.map (Rox.Spec.Canon.view d1) = d2.nodes.toList.map (Rox.Spec.Canon.view d2) := by
+  subst h1 h2
+  obtain ⟨d1, p1, v1⟩ := every_rendering_gives_the_tree n1 as1 e1 sc1 ks1 c1 hx hs1 o1 hl1 hl1' hattrs
+  rw [hsame] at hx hl2 hattrs
+  obtain ⟨d2, p2, v2⟩ := every_rendering_gives_the_tree n2 as2 e2 sc2 ks2 c2 hx hs2 o2 hl2 hl2' hattrs
+  exact ⟨d1, d2, p1, p2, by rw [v1, v2, hsame]⟩
 
 /-- Which kinds of token each part of a document can deliver: the prolog only comments and PIs
 (the XML declaration and the BOM yield nothing), the DOCTYPE only entity declarations, comments
